@@ -211,70 +211,226 @@ def _declref(fn, did):
     raise AnalysisBroken("local %d never referenced" % did)
 
 
-def check_trailing_pointer(ctx, unit, rule="H.chain-unlink"):
-    """remove(): the node is unlinked from the head slot when it is the first of its chain and from its
-    predecessor's next link otherwise; the predecessor variable must follow the walk (be set to the current
-    node on every path that continues the loop), otherwise unlinking a later node cuts off the nodes before it."""
-    ctx.rule(rule, "hash_map::remove unlinks through the table slot or the predecessor's next link, and the predecessor "
-             "variable is advanced to the current node on every path around the chain walk", 1)
-    for rec in recs_of(unit, MAP):
-        for f in cls_fns(unit, rec["qn"]):
-            if f.name != "remove":
-                continue
-            inits = RA.local_inits(f)
-            # predecessor variable: local initialised to null that is compared with null in the match arm
-            cands = [d for d, i in inits.items() if i.strip().get("nullc") or i.strip().kind == "CXXNullPtrLiteralExpr"
-                     or any(x.kind == "CXXNullPtrLiteralExpr" for x in i.walk())]
-            prev = None
-            for blk in f.blocks.values():
-                if blk.cond is not None:
-                    c = f.node(blk.cond).strip()
-                    while c.kind == "UnaryOperator" and c.op == "!":
-                        c = c.children[0].strip()
-                    if c.kind == "BinaryOperator" and c.op in ("==", "!="):
-                        for side in c.children:
-                            l = side.strip()
-                            if l.kind == "DeclRefExpr" and l.d["d"] in cands:
-                                prev = l.d["d"]
-                    elif c.kind == "DeclRefExpr" and c.d["d"] in cands:
-                        prev = c.d["d"]
-            problems = []
-            if prev is None:
-                problems.append("no predecessor variable that selects between head-unlink and mid-chain unlink")
-            else:
-                # loop variable of the chain walk
-                loopvar = None
-                hdr = None
-                for blk in f.blocks.values():
-                    if blk.termkind in ("ForStmt", "WhileStmt") and blk.cond is not None:
-                        c = f.node(blk.cond).strip()
-                        l = None
-                        if c.kind == "BinaryOperator" and c.op == "!=":
-                            l = c.children[0].strip()
-                        elif c.kind == "DeclRefExpr":
-                            l = c
-                        if l is not None and l.kind == "DeclRefExpr" and l.d["d"] != prev and (l.get("t") or "").endswith("*"):
-                            loopvar, hdr = l.d["d"], blk.id
-                if loopvar is None:
-                    problems.append("chain walk loop not found")
-                else:
-                    from .rules_parse import check_loop_progress
+def _lk_var(n):
+    n = n.strip()
+    if n.kind == "DeclRefExpr" and n.get("local") and n.get("dk") in ("Var", "ParmVar") and (n.get("t") or "").rstrip().endswith("*"):
+        return n.d["d"]
+    return None
 
-                    class _C:
-                        def __init__(self): self.ok = True; self.rules_text = {}; self.minima = {}
-                        def inst(self, rule, inst, ok, *a, **k):
-                            self.ok = self.ok and ok
-                    cc = _C()
-                    check_loop_progress(cc, "x", f, lambda n: n.kind == "BinaryOperator" and n.op == "=" and
-                                        n.children[0].strip().kind == "DeclRefExpr" and n.children[0].strip().d["d"] == prev and
-                                        n.children[1].strip().kind == "DeclRefExpr" and n.children[1].strip().d["d"] == loopvar)
-                    if not cc.ok:
-                        problems.append("a path around the chain walk does not advance the predecessor variable to the current node")
-                # both unlink forms exist
-                ws = [n for n in f.events() if n.kind == "BinaryOperator" and n.op == "=" and "next" in canon(n.children[1])]
-                heads = [n for n in ws if n.children[0].strip().kind == "ArraySubscriptExpr"]
-                mids = [n for n in ws if path(n.children[0]) and path(n.children[0])[-1] == "next" and path(n.children[0])[0].endswith("#%d" % prev)]
-                if not heads or not mids:
-                    problems.append("unlink forms found: table slot %d, predecessor link %d" % (len(heads), len(mids)))
-            ctx.inst(rule, f.sig, not problems, f.loc, "; ".join(problems) if problems else
-                     "predecessor follows the walk; both unlink forms present", f)
+
+def _lk_mentions(n):
+    return frozenset(x.d["d"] for x in n.walk() if x.kind == "DeclRefExpr" and x.get("local"))
+
+
+class LinkSlots:
+    """Which memory location currently holds each chain pointer.  Facts (must-facts of one path-sensitive state):
+      ('eq', v, L)   local v == *L          ('addr', pp, L)  local pp == &L
+      ('al', a, b)   locals a == b           ('null', v) / ('nn', v)
+    L is ('slot', text, vars) for a table slot, ('next', v, field) for v->field, ('deref', pp) for *pp.
+    An *unlink store* `L = x->field` (a link location receives the successor of x) is justified only if x == *L
+    holds on every path; otherwise a node that is not x is cut out of the chain (or x stays linked)."""
+
+    def __init__(self, fn):
+        self.fn = fn
+        self.sites = {}      # node id -> (node, ok on every state, text)
+
+    def loc(self, n, st):
+        """location designated by lvalue expression n (unstripped of LValueToRValue by caller)"""
+        n = n.strip()
+        if n.kind == "ArraySubscriptExpr":
+            return ("slot", canon(n), _lk_mentions(n))
+        if n.kind == "MemberExpr" and n.get("mk") == "Field" and (n.get("t") or "").rstrip().endswith("*") and n.children:
+            b = n.children[0]
+            v = _lk_var(b)
+            if v is not None:
+                return ("next", v, n.m)
+            # base is itself a load of a location that some local is known to equal
+            bl = self.loc(b, st)
+            if bl is not None:
+                for f in st:
+                    if f[0] == "eq" and f[2] == bl:
+                        return ("next", f[1], n.m)
+            return None
+        if n.kind == "UnaryOperator" and n.op == "*" and n.children:
+            v = _lk_var(n.children[0])
+            if v is not None:
+                return ("deref", v)
+        return None
+
+    @staticmethod
+    def mentions(fact, v):
+        if fact[0] in ("null", "nn"):
+            return fact[1] == v
+        if fact[0] == "al":
+            return v in fact[1:]
+        if fact[1] == v:
+            return True
+        L = fact[2]
+        if L[0] == "slot":
+            return v in L[2]
+        return L[1] == v
+
+    def assign(self, st, x, e):
+        """local x = e"""
+        new = set()
+        es = e.strip()
+        y = _lk_var(es)
+        aliases = {f[1] if f[2] == x else f[2] for f in st if f[0] == "al" and x in f[1:]}
+        if es.kind == "CXXNullPtrLiteralExpr" or es.get("nullc") or (es.cv() == 0 and es.kind == "IntegerLiteral"):
+            new.add(("null", x))
+        elif y is not None and y != x:
+            new.add(("al", min(x, y), max(x, y)))
+            for f in st:
+                if f[0] in ("eq", "addr") and f[1] == y and not self.mentions((f[0], None, f[2]), x):
+                    new.add((f[0], x, f[2]))
+                if f[0] in ("null", "nn") and f[1] == y:
+                    new.add((f[0], x))
+        elif es.kind == "UnaryOperator" and es.op == "&" and es.children:
+            L = self.loc(es.children[0], st)
+            L = self._rebase(L, x, aliases)
+            if L is not None:
+                new.add(("addr", x, L))
+                new.add(("nn", x))
+        else:
+            L = self.loc(es, st)
+            if L is not None:
+                cands = [L]
+                if L[0] == "deref":
+                    cands += [f[2] for f in st if f[0] == "addr" and f[1] == L[1]]
+                for c in cands:
+                    c = self._rebase(c, x, aliases)
+                    if c is not None:
+                        new.add(("eq", x, c))
+        out = {f for f in st if not self.mentions(f, x)}
+        return frozenset(out | new)
+
+    def _rebase(self, L, x, aliases):
+        if L is None:
+            return None
+        if L[0] == "slot":
+            return None if x in L[2] else L
+        if L[1] != x:
+            return L
+        for a in sorted(aliases):
+            return (L[0], a) + tuple(L[2:])
+        return None
+
+    def holds(self, st, x, L):
+        if ("eq", x, L) in st:
+            return True
+        if L[0] == "deref":
+            for f in st:
+                if f[0] == "addr" and f[1] == L[1] and ("eq", x, f[2]) in st:
+                    return True
+        for f in st:
+            if f[0] == "addr" and f[2] == L and ("eq", x, ("deref", f[1])) in st:
+                return True
+        return False
+
+    def transfer(self, n, st):
+        k = n.kind
+        if k == "DeclStmt":
+            for d in n.get("decls", []):
+                if "init" in d:
+                    st = self.assign(st, d["d"], self.fn.node(d["init"]))
+                else:
+                    st = frozenset(f for f in st if not self.mentions(f, d["d"]))
+            return [st]
+        if k == "BinaryOperator" and n.op == "=":
+            lhs, rhs = n.children
+            x = _lk_var(lhs)
+            if x is not None:
+                return [self.assign(st, x, rhs)]
+            if not (lhs.get("t") or "").rstrip().endswith("*"):
+                # assignment to a non-pointer local (e.g. the bucket index) invalidates slots that mention it
+                ls = lhs.strip()
+                if ls.kind == "DeclRefExpr" and ls.get("local"):
+                    return [frozenset(f for f in st if not self.mentions(f, ls.d["d"]))]
+                return [st]
+            L = self.loc(lhs, st)
+            rs = rhs.strip()
+            if L is not None and rs.kind == "MemberExpr" and rs.get("mk") == "Field" and rs.children and _lk_var(rs.children[0]) is not None:
+                xv = _lk_var(rs.children[0])
+                ok = self.holds(st, xv, L)
+                node, allok, _ = self.sites.get(n.id, (n, True, ""))
+                self.sites[n.id] = (n, allok and ok, canon(lhs))
+            # the store changes *L: forget what every local was known to equal, remember the stored local
+            out = {f for f in st if f[0] != "eq"}
+            y = _lk_var(rhs)
+            if L is not None and y is not None:
+                out.add(("eq", y, L))
+            return [frozenset(out)]
+        if k in ("UnaryOperator",) and n.op in ("++", "--") and n.children:
+            ls = n.children[0].strip()
+            if ls.kind == "DeclRefExpr" and ls.get("local"):
+                return [frozenset(f for f in st if not self.mentions(f, ls.d["d"]))]
+        if k == "CompoundAssignOperator" and n.children:
+            ls = n.children[0].strip()
+            if ls.kind == "DeclRefExpr" and ls.get("local"):
+                return [frozenset(f for f in st if not self.mentions(f, ls.d["d"]))]
+        return [st]
+
+    def refine(self, cond, truth, st):
+        cons = []
+
+        def lookup(a):
+            v = _lk_var(a)
+            if v is None:
+                return None
+            if ("nn", v) in st:
+                return True
+            if ("null", v) in st:
+                return False
+            return None
+
+        def assume(a, val):
+            v = _lk_var(a)
+            if v is not None:
+                cons.append(("nn" if val else "null", v))
+        if not flow.refine_bool(cond, truth, lookup, assume):
+            return []
+        out = set(st)
+        for c in cons:
+            other = ("null" if c[0] == "nn" else "nn", c[1])
+            if other in out:
+                return []
+            out.add(c)
+            # propagate over aliases
+            for f in st:
+                if f[0] == "al" and c[1] in f[1:]:
+                    o = f[1] if f[2] == c[1] else f[2]
+                    if (("null" if c[0] == "nn" else "nn"), o) in out:
+                        return []
+                    out.add((c[0], o))
+        return [frozenset(out)]
+
+    def run(self):
+        flow.run(self.fn, [frozenset()], self.transfer, self.refine, limit=50000)
+        return self.sites
+
+
+def check_trailing_pointer(ctx, unit, rule="H.chain-unlink"):
+    """Every store that unlinks a node x from a bucket chain (`L = x->next`, L a table slot, a predecessor's next
+    field, or *pp) writes into the location that holds x on every path reaching it.  Decided by a path-sensitive
+    must-analysis of which location each local was loaded from (LinkSlots): covers the predecessor-variable idiom,
+    the pointer-to-link idiom and any loop form; a predecessor that does not follow the walk, a stale predecessor
+    or a head/middle mix-up all leave the fact unproven."""
+    ctx.rule(rule, "hash_map: a store `L = x->next` that unlinks x from its chain writes into the location L that holds x "
+             "on every path (path-sensitive must-analysis of where each chain pointer was loaded from)", 2)
+    for rec in recs_of(unit, MAP):
+        cnt = 0
+        for f in cls_fns(unit, rec["qn"]):
+            try:
+                sites = LinkSlots(f).run()
+            except flow.TooManyStates:
+                raise AnalysisBroken("link-slot analysis of %s exceeded its state budget" % f.qn)
+            for k, (nid, (n, ok, lhs)) in enumerate(sorted(sites.items())):
+                cnt += 1
+                ctx.inst(rule, "%s: unlink store #%d" % (f.sig, k + 1), ok, n.loc,
+                         "store into %s: %s" % (lhs, "the location holds the unlinked node on every path" if ok else
+                                                "on some path this location does not hold the node whose successor is stored "
+                                                "(wrong or stale predecessor / slot)"), f)
+        if cnt == 0:
+            raise AnalysisBroken("anchor vanished: %s has no chain unlink store" % rec["qn"])
+
+
